@@ -1188,7 +1188,10 @@ class CompositeEnvelope:
             p for p in self.states if any(so in p.state_objs for so in states)
         ]
         ps = None
-        if len(product_states) > 1:
+        if len(product_states) > 1 or (
+            len(product_states) == 1
+            and not all(state in product_states[0].state_objs for state in states)
+        ):
             all_states = [s for s in states]
             for p in product_states:
                 all_states.extend([s for s in p.state_objs])
@@ -1255,7 +1258,10 @@ class CompositeEnvelope:
             p for p in self.states if any(so in p.state_objs for so in states)
         ]
         ps = None
-        if len(product_states) > 1:
+        if len(product_states) > 1 or (
+            len(product_states) == 1
+            and not all(state in product_states[0].state_objs for state in states)
+        ):
             all_states = [s for s in states]
             for p in product_states:
                 all_states.extend([s for s in p.state_objs])
@@ -1306,7 +1312,9 @@ class CompositeEnvelope:
         ]
         assert len(product_states) > 0, "No product state found"
         ps: ProductState
-        if len(product_states) > 1:
+        if len(product_states) > 1 or not all(
+            state in product_states[0].state_objs for state in states
+        ):
             all_states = [s for s in states]
             for p in product_states:
                 all_states.extend([s for s in p.state_objs])
